@@ -146,19 +146,34 @@ func (r *echoRun) checkEcho(prop string, reqs []*GenReq, norm bool) {
 func RunC01(ep *core.Episode) {
 	tp := ep.Tape
 	o := SrvOpts{}
-	o.Stream = tp.Choose("stream", 2) == 1
+	// widened draws keep the meaning of the values recorded earlier (witness tapes):
+	// stream 0/1 as before, 2 = streaming with handlers that stop reading early;
+	// returnmode 0..3 in-loop, 4 return-to-transport, 5 sense-client-disconnection
+	sv := tp.Choose("stream", 3)
+	o.Stream = sv >= 1
+	partial := sv == 2
 	o.BufSize = tp.Pick("bufsize", 4096, 8192, 16384)
 	o.DisableNorm = tp.Chance("nonorm", 1, 4)
-	o.ReturnToTransport = tp.Chance("returnmode", 1, 5)
+	rm := tp.Choose("returnmode", 6)
+	o.ReturnToTransport = rm == 4
 	if o.ReturnToTransport {
 		ep.Probe("return-to-transport")
 	}
-	if !o.ReturnToTransport && !o.Stream && tp.Chance("sensedisc", 1, 5) {
+	if rm == 5 && !o.Stream {
 		// WithSenseClientDisconnection: a second goroutine blocks in a read on the connection while the handler runs
 		o.SenseDisconnect = true
 		ep.Probe("sense-disconnect")
 	}
 	r := startEcho(ep, o)
+	if partial {
+		// every handler reads only a prefix of its streamed body; the server has to dispose of the rest
+		stops := make([]int, 8)
+		for i := range stops {
+			stops[i] = tp.Pick("stopat", -1, 0, 1, 100, 4095, 4096, 8191, 8192, 8193, 20000)
+		}
+		r.echo.Limit = func(i int) int { return stops[i%len(stops)] }
+		ep.Probe("partial-read")
+	}
 	n := 1 + tp.Weighted("nreq", []int{2, 3, 3, 2, 1, 1})
 	gopt := GenOpt{NearMiss: true, CRNear: true, Expect100: true, HTTP10: true, BigBodies: true, Hostile: true, ChunkExt: ep.Param("chunkext") != "off"}
 	var reqs []*GenReq
